@@ -8,7 +8,7 @@ class FilteredConfigParser(ObjectProxy):
   filters out entries for particular, unwanted species"""
 
 
-  def __init__(self, config_parser, exclude = [], include = []):
+  def __init__(self, config_parser, exclude = None, include = None):
     """Wrap existing ConfigParser so that it excludes entries
     for unwanted species.
 
@@ -24,8 +24,9 @@ class FilteredConfigParser(ObjectProxy):
     if exclude and include:
       raise ValueError("Both exclude and include arguments specified. Only one can be used at one time.")
 
-    if exclude:
-      self._self_species_list = exclude
+    if exclude or include is None:
+      # An empty (or absent) exclude list removes nothing.
+      self._self_species_list = exclude or []
       self._self_exclude_flag = True
     else:
       self._self_species_list = include
